@@ -3,7 +3,7 @@
    label list = every interleaving of their Get / Create / Update steps, every environment outcome
    of every engine call (answered, failed, unknown-outcome commit, failed timestamp read).
    Property theorems only: each is closed by `exact <lemma>` and followed by Print Assumptions. *)
-From KB Require Import Base.Cases Model.Election Model.C14Cases Proofs.Election Proofs.C14Cases.
+From KB Require Import Base.Cases Model.Election Model.C14Cases Model.Lease Model.RecordFormat Proofs.Election Proofs.C14Cases Proofs.Lease Proofs.RecordFormat.
 Local Open Scope N_scope.
 
 (* An Update is applied only if the stored record equals, at the instant of application, the bytes
@@ -42,23 +42,48 @@ Print Assumptions C14_record_never_deleted.
    still conditioned on X — is not applied. The hypothesis "new record differs from X" is b1 <> X
    and the lab_write part of quiet; it is needed (Example C14_aba) and satisfiable
    (Example C14_two_candidates). c = d is allowed: see C14_second_renewal_needs_get. *)
-Theorem C14_no_double_acquire : forall s c d X h1 b1 e1 t1 mid h2 b2 e2 t2,
+Theorem C14_no_double_acquire_except_aba : forall s c d X h1 b1 e1 t1 mid h2 b2 e2 t2,
   lastVal (cands s c) = X -> lastVal (cands s d) = X ->
   b1 <> X -> Forall (quiet d X) mid ->
   o_applied (run_op s (LUpdate c h1 b1 e1 t1)) = true ->
   o_applied (run_op (run (step s (LUpdate c h1 b1 e1 t1)) mid) (LUpdate d h2 b2 e2 t2)) = false.
 Proof. exact stale_update_rejected. Qed.
-Print Assumptions C14_no_double_acquire.
+Print Assumptions C14_no_double_acquire_except_aba.
 
 (* the same on the ghost log of any run: two applied writes conditioned on the same bytes X, with
    every record written from the first one up to the second differing from X, cannot both exist *)
-Theorem C14_no_double_acquire_log : forall st0 ls l3 e2 l2 e1 l1 X,
+Theorem C14_no_double_acquire_log_except_aba : forall st0 ls l3 e2 l2 e1 l1 X,
   log (run (init st0) ls) = l3 ++ e2 :: l2 ++ e1 :: l1 ->
   e_cond e1 = Some X -> e_cond e2 = Some X ->
   e_new e1 <> X -> (forall e, In e l2 -> e_new e <> X) ->
   False.
 Proof. exact no_double_acquire_log. Qed.
-Print Assumptions C14_no_double_acquire_log.
+Print Assumptions C14_no_double_acquire_log_except_aba.
+
+(* The ABA side condition ("nobody writes X back") discharged for records formed the way client-go's
+   elector forms them (Model/RecordFormat.v: tryAcquireOrRenew step 3 and release(): a renewal keeps
+   LeaderTransitions, a take-over increments it, a release keeps it) and ANY injective marshalling of
+   (holder, acquire, renew, transitions): two applied updates conditioned on the same bytes X, the older one
+   a take-over, cannot both exist — after a take-over from X every later record carries more transitions
+   than X. A renewal may legitimately write X's own bytes again (metav1.Time has second resolution): that
+   is X -> X by the holder itself, not a second acquisition. *)
+Theorem C14_no_double_takeover : forall (marshal : srec -> bytes),
+  (forall a b, marshal a = marshal b -> a = b) ->
+  forall st0 ls l3 e2 l2 e1 l1 X,
+  log (run (init st0) ls) = l3 ++ e2 :: l2 ++ e1 :: l1 ->
+  Forall (cg_formed marshal) (l2 ++ [e1]) ->
+  e_cond e1 = Some X -> e_cond e2 = Some X ->
+  (forall x y, e_cond e1 = Some (marshal x) -> e_new e1 = marshal y -> is_takeover x y) ->
+  False.
+Proof. exact no_double_takeover. Qed.
+Print Assumptions C14_no_double_takeover.
+
+(* the elector's rules do form such records *)
+Theorem C14_clientgo_records_formed : forall me now x,
+  (s_trans x <= s_trans (cg_update me now x) /\ (is_takeover x (cg_update me now x) -> s_trans x < s_trans (cg_update me now x))) /\
+  (s_trans x <= s_trans (cg_release x) /\ (is_takeover x (cg_release x) -> s_trans x < s_trans (cg_release x))).
+Proof. intros me now x. exact (conj (cg_update_formed me now x) (cg_release_formed x)). Qed.
+Print Assumptions C14_clientgo_records_formed.
 
 (* The applied writes form a chain: each one found in place exactly the bytes of the previously
    applied write (or the initial record); an update's condition is that; a create found nothing;
@@ -83,7 +108,7 @@ Print Assumptions C14_chain.
    from before its own first Update). client-go's tryAcquireOrRenew (the version vendored by the
    repository) always calls Get first, so renewals work; LeaderElector.release() (ReleaseOnCancel
    is set in leader.go) calls Update without Get and therefore always fails after a successful
-   renewal. Safety is unaffected (this theorem is an instance of C14_no_double_acquire with c = d). *)
+   renewal. Safety is unaffected (this theorem is an instance of C14_no_double_acquire_except_aba with c = d). *)
 Theorem C14_second_renewal_needs_get : forall s c h1 b1 e1 t1 h2 b2 e2 t2,
   b1 <> lastVal (cands s c) ->
   o_applied (run_op s (LUpdate c h1 b1 e1 t1)) = true ->
@@ -129,6 +154,54 @@ Theorem C14_ok_implies_applied : forall s l,
   o_res (run_op s l) = ROk -> o_applied (run_op s l) = true.
 Proof. exact ok_implies_applied. Qed.
 Print Assumptions C14_ok_implies_applied.
+
+(* ---- the elector-level statement: at most one elector believes it leads within a lease ----
+   Timed model (Model/Lease.v) of what client-go's LeaderElector does with the lock. Global clock; the
+   clock-rate hypothesis is in the constants: L = shortest global duration a challenger waits, after it
+   first saw a record held by somebody else, before writing over it (LeaseDuration / (1+drift));
+   B = longest global duration an elector keeps believing it leads after one of its writes took effect
+   ((d + RetryPeriod + RenewDeadline) * (1+drift), d = how long after the write took effect the Update
+   call may return). lease_ok: the accepted writes of the record, oldest first — a chain by
+   C14_no_silent_overwrite — in which a write over a record held by another elector comes at least L
+   after that record was written (C14_guard_gives_step: that is what tryAcquireOrRenew's observedTime
+   guard yields, an elector never having seen a record before it was written). HYPOTHESIS B <= L.
+   With leader.go's constants (8 s / 5 s / 1 s) this needs d <= 2 s at drift 0: the lock's commit has a 1 s
+   time-out, but the timestamp read that follows it in Update (context.Background()) has none — d is then
+   bounded only by the renew deadline (5 s), B = 11 s > L: outside the hypothesis. *)
+Theorem C14_one_leader_per_lease : forall L B ws c d t,
+  lease_ok L ws -> B <= L -> believes B ws c t -> believes B ws d t -> c = d.
+Proof. exact one_leader. Qed.
+Print Assumptions C14_one_leader_per_lease.
+
+(* the same for every run of the timed system of Model/Lease.v: any number of electors, any interleaving of
+   TObserve (Get + observedTime bookkeeping), TWrite (Create / Update / release: guarded by what the elector
+   observed, applied iff the stored record is still the observed one) and TTick *)
+Theorem C14_one_leader_timed : forall L B ls c d t,
+  B <= L ->
+  let ws := rev (t_log (trun L tsys0 ls)) in
+  believes B ws c t -> believes B ws d t -> c = d.
+Proof. exact one_leader_timed. Qed.
+Print Assumptions C14_one_leader_timed.
+
+(* what ties the timed system to the lock model: a TWrite is applied under exactly the rule Election.v's
+   Create / Update obey — the stored record is still the one the elector observed — plus the elector's guard
+   (no refinement between the two models is proved beyond this shared rule; no driver case runs tstep) *)
+Theorem C14_twrite_applied_iff : forall L s c rel,
+  t_log (tstep L s (TWrite c rel)) <> t_log s <->
+  ((if rel then match e_rec (t_els s c) with Some r => opt_eqb N.eqb (w_holder r) (Some c) | None => false end
+    else may_write L c (t_els s c) (t_now s)) = true /\ t_stored s = e_rec (t_els s c)).
+Proof. exact twrite_applied_iff. Qed.
+Print Assumptions C14_twrite_applied_iff.
+
+Theorem C14_guard_gives_step : forall L me s now r,
+  seen_ok s -> e_rec s = Some r -> may_write L me s now = true ->
+  match w_holder r with Some h => h <> me -> w_time r + L <= now | None => True end.
+Proof. exact guard_gives_step. Qed.
+Print Assumptions C14_guard_gives_step.
+
+Theorem C14_observe_keeps_seen_ok : forall s now r, seen_ok s -> w_time r <= now -> seen_ok (observe s now r).
+Proof. exact observe_seen_ok. Qed.
+Print Assumptions C14_observe_keeps_seen_ok.
 
 (* the executable oracle used on the implementation's traces accepts every model trace *)
 Theorem C14_oracle_sound : forall c, c14_check c = true -> c14_oracle c = None.
@@ -201,3 +274,88 @@ Example C14_lost_unknown_update :
   o_res (run_op s (LUpdate 1 idA rA CUnknown (TOk 8))) = RErr /\
   rec_bytes (store (step s (LUpdate 1 idA rA CUnknown (TOk 8)))) = Some rB.
 Proof. vm_compute. split; reflexivity. Qed.
+
+(* the lease theorem is not vacuous. Times in ms, drift 3%: L = 8000/1.03 = 7766, B = (1000+1000+5000)*1.03 = 7210.
+   A renews at 0 and 2000, stalls; B takes over at 9800 (>= 2000 + L); A releases nothing. *)
+Definition ws_ex : list wr :=
+  [mkWr 1 (Some 1) 0; mkWr 1 (Some 1) 2000; mkWr 2 (Some 2) 9800; mkWr 2 (Some 2) 10800; mkWr 2 None 11000; mkWr 3 (Some 3) 11001].
+Example C14_lease_inhabited :
+  lease_ok 7766 ws_ex /\ 7210 <= 7766 /\ believes 7210 ws_ex 1 9000 /\ believes 7210 ws_ex 2 10900.
+Proof.
+  split; [|split; [|split]].
+  - simpl. repeat split; simpl; auto; try lia; try (intros H; first [lia | exfalso; apply H; reflexivity]).
+  - lia.
+  - exists [mkWr 1 (Some 1) 0], (mkWr 1 (Some 1) 2000), [mkWr 2 (Some 2) 9800; mkWr 2 (Some 2) 10800; mkWr 2 None 11000; mkWr 3 (Some 3) 11001].
+    simpl. repeat split; try lia. repeat constructor; simpl; intros; try lia; try congruence.
+  - exists [mkWr 1 (Some 1) 0; mkWr 1 (Some 1) 2000; mkWr 2 (Some 2) 9800], (mkWr 2 (Some 2) 10800), [mkWr 2 None 11000; mkWr 3 (Some 3) 11001].
+    simpl. repeat split; try lia. repeat constructor; simpl; intros; try lia; try congruence.
+Qed.
+(* the hypothesis B <= L is needed: with B = 11000 (Update returning up to the renew deadline after its
+   write took effect) elector 1 still believes at 9900 while elector 2 has taken over *)
+Example C14_lease_hypothesis_needed :
+  lease_ok 7766 ws_ex /\ believes 11000 ws_ex 1 9900 /\ believes 11000 ws_ex 2 9900.
+Proof.
+  split; [|split].
+  - simpl. repeat split; simpl; auto; try lia; try (intros H; first [lia | exfalso; apply H; reflexivity]).
+  - exists [mkWr 1 (Some 1) 0], (mkWr 1 (Some 1) 2000), [mkWr 2 (Some 2) 9800; mkWr 2 (Some 2) 10800; mkWr 2 None 11000; mkWr 3 (Some 3) 11001].
+    simpl. repeat split; try lia. repeat constructor; simpl; intros; try lia; try congruence.
+  - exists [mkWr 1 (Some 1) 0; mkWr 1 (Some 1) 2000], (mkWr 2 (Some 2) 9800), [mkWr 2 (Some 2) 10800; mkWr 2 None 11000; mkWr 3 (Some 3) 11001].
+    simpl. repeat split; try lia. repeat constructor; simpl; intros; try lia; try congruence.
+Qed.
+
+(* a run of the timed system: 1 creates and renews, stalls; 2 observes at 2500 and may only take over after
+   a lease (its early attempt at 9000 is refused by its own guard); 1's stale release at 12000 is refused by
+   the compare-and-swap *)
+Definition run_ex : list tlabel :=
+  [TObserve 1; TWrite 1 false; TTick 2000; TObserve 1; TWrite 1 false; TTick 500; TObserve 2;
+   TTick 6500; TWrite 2 false; TTick 1500; TWrite 2 false; TTick 1500; TWrite 1 true; TObserve 3; TWrite 3 false].
+Example C14_timed_run :
+  rev (t_log (trun 7766 tsys0 run_ex)) = [mkWr 1 (Some 1) 0; mkWr 1 (Some 1) 2000; mkWr 2 (Some 2) 10500].
+Proof. vm_compute. reflexivity. Qed.
+
+(* ---- audit: inhabitation ---- *)
+(* the hypotheses of C14_no_double_takeover hold on a concrete run with an injective marshalling *)
+Example C14_no_double_takeover_inhabited :
+  (forall a b, marshal_ex a = marshal_ex b -> a = b) /\
+  (let l := log (run (init (Some (mkRec (marshal_ex sX) (Some [88]))))
+                     [LGet 1 GOk (TOk 5); LGet 3 GOk (TOk 6); LUpdate 1 [65] (marshal_ex sA) COk (TOk 7);
+                      LUpdate 3 [67] (marshal_ex (cg_update [67] 8 sX)) COk (TOk 8)]) in
+   length l = 1%nat /\ Forall (cg_formed marshal_ex) l /\
+   (forall e, In e l -> forall x y, e_cond e = Some (marshal_ex x) -> e_new e = marshal_ex y -> is_takeover x y)).
+Proof. split; [exact marshal_ex_inj|exact takeover_example]. Qed.
+(* C14_no_double_acquire_except_aba with a non-empty quiet list in between *)
+Example C14_no_double_acquire_mid :
+  let s := run (init x0) [LGet 1 GOk (TOk 5); LGet 2 GOk (TOk 6)] in
+  Forall (quiet 2 rX) [LInfo 2; LGet 3 GOk (TOk 7); LUpdate 3 [67] [67; 51] COk (TOk 8)] /\
+  o_applied (run_op s (LUpdate 1 idA rA COk (TOk 7))) = true /\
+  o_applied (run_op (run (step s (LUpdate 1 idA rA COk (TOk 7))) [LInfo 2; LGet 3 GOk (TOk 7); LUpdate 3 [67] [67; 51] COk (TOk 8)])
+                    (LUpdate 2 idB rB COk (TOk 9))) = false.
+Proof.
+  split; [|vm_compute; split; reflexivity].
+  repeat constructor; try exact I; simpl; try discriminate.
+Qed.
+(* a non-empty trace on which model and observation agree (and the oracle accepts) *)
+Example C14_check_inhabited :
+  let c := mkCase x0
+    [mkStep (LGet 1 GOk (TOk 5)) ROk true false (Some rX) (Some rX) ([88], 5);
+     mkStep (LGet 2 GOk (TOk 6)) ROk true false (Some rX) (Some rX) ([88], 6);
+     mkStep (LUpdate 1 idA rA COk (TOk 7)) ROk true false None (Some rA) ([88], 7);
+     mkStep (LInfo 2) ROk false false None (Some rA) ([88], 6);
+     mkStep (LUpdate 2 idB rB COk (TOk 8)) RConflict false false None (Some rA) ([88], 6)] in
+  c14_check c = true /\ c14_oracle c = None.
+Proof. vm_compute. split; reflexivity. Qed.
+(* hypotheses of C14_guard_gives_step / C14_observe_keeps_seen_ok; believes over the run of the timed system *)
+Example C14_guard_inhabited :
+  let r := mkWr 1 (Some 1) 2000 in let s := observe (mkE None 0) 2500 r in
+  seen_ok s /\ e_rec s = Some r /\ may_write 7766 2 s 10500 = true /\ may_write 7766 2 s 9000 = false /\ w_time r <= 2500.
+Proof. vm_compute. repeat split; discriminate. Qed.
+Example C14_timed_believes :
+  let ws := rev (t_log (trun 7766 tsys0 run_ex)) in
+  believes 7210 ws 1 9000 /\ believes 7210 ws 2 11000 /\ 7210 <= 7766.
+Proof.
+  cbv zeta. rewrite C14_timed_run. split; [|split; [|lia]].
+  - exists [mkWr 1 (Some 1) 0], (mkWr 1 (Some 1) 2000), [mkWr 2 (Some 2) 10500].
+    simpl. repeat split; try lia. repeat constructor; simpl; intros; try lia; try congruence.
+  - exists [mkWr 1 (Some 1) 0; mkWr 1 (Some 1) 2000], (mkWr 2 (Some 2) 10500), [].
+    simpl. repeat split; try lia. constructor.
+Qed.
